@@ -137,7 +137,9 @@ func (s fnSig) hasRef() bool {
 var pairInner = []string{
 	"@", "a", "b", "n", "s", "arr", "nums", "mix", "obj", "one", "empty", "missing", "nul", "a.b", "obj.k", "one.k", "missing.x", "nul.x", "arr[0]", "arr[-1]", "arr[5]", "nums[1]", "mix[2]",
 	"arr[0].a", "arr[1:]", "nums[::-1]", "nums[:2]", "mix[1::2]", "empty[0:1]", "s[0:1]", "arr[*]", "arr[*].a", "mix[*].a", "nums[*]", "arr[]", "nest[]", "nest[][]", "mix[]", "arr[?a]", "arr[?a == `1`]",
-	"mix[?a]", "mix[?@]", "mix[?a == `null`]", "nums[?@ > `1`]", "mix[?type(@) == 'object'].a", "one.*", "one.*.k", "[a, b]", "[a, missing]", "[@]", "{x: a, y: missing}", "{x: @}", "a || b",
+	"mix[?a]", "mix[?@]", "mix[?a == `null`]", "nums[?@ > `1`]", "mix[?type(@) == 'object'].a", "mix[?type(@) == 'string'].length(@)", "mix[?type(@) == 'number'].abs(@)", "mix[?type(a) == 'number'].abs(a)", "mix[?abs(@) > `0`]", "mix[?type(@) == 'array'][0].a",
+	"arr[?type(a) == 'number'].abs(a)", "mix[?type(@) != 'null'].type(@)", "sort_by(arr, &a)[-1]", "sort_by(arr, &a)[0]", "sort_by(arr, &a)[*].n", "max_by(arr, &a).n", "min_by(arr, &a).n", "sort(nums)[-1]", "sort(nums)[0]",
+	"to_string(bs)", "to_string(obj2)", "reverse(arr)[0].n", "sort_by(arr, &n)[-1].a", "one.*", "one.*.k", "[a, b]", "[a, missing]", "[@]", "{x: a, y: missing}", "{x: @}", "a || b",
 	"missing || a", "nul || `0`", "a && b", "missing && a", "empty && a", "!a", "!missing", "!empty", "a == b", "a == a", "a != nul", "missing == nul", "n < `2`", "n >= n", "s < `1`", "missing < `1`",
 	"a | @", "arr | [0]", "missing | type(@)", "`1`", "`null`", "`[1,2]`", "`{\"k\":1}`", "`\"x\"`", "'raw'", "''", "`[]`", "`{}`", "`false`", "`0`", "(a)", "(arr)[0]", "(arr[*].a)[0]",
 	"abs(n)", "abs(nums[0])", "avg(nums)", "avg(empty)", "ceil(n)", "floor(n)", "contains(s, 'a')", "contains(nums, `1`)", "contains(mix, `null`)", "ends_with(s, 'c')", "starts_with(s, 'a')", "join('-', strs)",
@@ -151,7 +153,7 @@ var pairOuter = []string{
 	"%s", "(%s)", "%s.a", "%s.k", "%s.b.c", "%s[0]", "%s[-1]", "%s[1:]", "%s[::-1]", "%s[:1]", "%s[*]", "%s[*].a", "%s[]", "%s[][]", "%s[?a]", "%s[?@]", "%s[?@ == `null`]", "%s[?a == `1`]", "%s[?type(@) == 'number']",
 	"%s | @", "%s | [0]", "%s | type(@)", "%s | length(@)", "%s | [*].a", "%s | [*].type(@)", "%s | [?@]", "@ | %s", "a | %s", "missing | %s", "arr | %s", "arr[0] | %s", "mix | %s",
 	"%s || a", "%s || 'd'", "%s && a", "a || %s", "missing || %s", "a && %s", "missing && %s", "!%s", "!(%s)", "%s == a", "%s == `null`", "%s != `[]`", "a == %s", "`1` == %s", "%s < `2`", "%s >= n", "n < %s", "n > (%s)",
-	"[%s]", "[%s, a]", "[a, %s, %s]", "{x: %s}", "{x: a, y: %s}", "arr[*].[%s]", "arr[*].{v: %s}", "arr[?%s]", "mix[?%s]", "arr[?a == (%s)]", "mix[*].[%s]", "nest[].[%s]", "one.*.[%s]", "arr[1:].[%s]", "mix[*].{v: %s}", "mix[?a == (%s)]", "mix[?(%s) == `null`]",
+	"[%s]", "[%s, a]", "[a, %s, %s]", "{x: %s}", "{x: a, y: %s}", "{x: %s, x: a}", "{x: a, x: %s}", "{x: %s, y: a, x: b}.x", "arr[*].[%s]", "arr[*].{v: %s}", "arr[?%s]", "mix[?%s]", "arr[?a == (%s)]", "mix[*].[%s]", "nest[].[%s]", "one.*.[%s]", "arr[1:].[%s]", "mix[*].{v: %s}", "mix[?a == (%s)]", "mix[?(%s) == `null`]",
 	"missing.%s", "nul.%s", "a.%s", "arr[0].%s", "arr[5].%s", "obj.%s", "mix[0].%s", "[%s][0]", "[%s][*]", "{x: %s}.x", "(%s)[0]", "(%s).a",
 	"abs(%s)", "avg(%s)", "ceil(%s)", "contains(%s, a)", "contains(arr, %s)", "contains(s, %s)", "ends_with(%s, 'c')", "floor(%s)", "join(',', %s)", "join(%s, strs)", "keys(%s)", "length(%s)", "map(&%s, arr)",
 	"map(&%s, mix)", "map(&a, %s)", "map(&type(@), %s)", "max(%s)", "max_by(%s, &a)", "max_by(arr, &%s)", "merge(%s)", "merge(obj, %s)", "min(%s)", "min_by(%s, &a)", "not_null(%s)", "not_null(%s, a)", "not_null(missing, %s)",
@@ -160,7 +162,7 @@ var pairOuter = []string{
 }
 
 var pairDocs = []string{
-	`{"a":1,"b":2,"n":1.5,"s":"abc","num_s":"12","arr":[{"a":1},{"a":2},{"a":1}],"nums":[3,1,2],"strs":["b","a","c"],"mix":[{"a":1},null,1,"s",[{"a":2}],{"b":3},true,{"a":null}],"obj":{"k":1,"j":[1]},"one":{"k":{"k":5}},"empty":[],"nul":null,"nest":[[1,[2]],[],[[3]],4]}`,
+	`{"a":1,"b":2,"n":1.5,"s":"abc","num_s":"12","arr":[{"a":1,"n":0},{"a":2,"n":1},{"a":1,"n":2},{"a":2,"n":3}],"bs":"x\\u003cy\\u0026\\\\u003e","obj2":{"\\u003c":"<&>"},"nums":[3,1,2],"strs":["b","a","c"],"mix":[{"a":1},null,1,"s",[{"a":2}],{"b":3},true,{"a":null}],"obj":{"k":1,"j":[1]},"one":{"k":{"k":5}},"empty":[],"nul":null,"nest":[[1,[2]],[],[[3]],4]}`,
 	`{"a":{"b":{"c":7}},"b":null,"n":-2,"s":"","num_s":"1e2","arr":[],"nums":[],"strs":[],"mix":[],"obj":{},"one":{"k":null},"empty":[],"nul":null,"nest":[]}`,
 	`{"a":[1,2],"b":"x","n":0,"s":"[1, 2]","num_s":" 1","arr":[{"a":"x"},{"a":"y"}],"nums":[1],"strs":["é","z"],"mix":[null,null],"obj":{"k":[{"a":1}]},"one":{"a":1},"empty":[],"nul":null,"nest":[[],[[]]]}`,
 	`null`, `[{"a":1,"b":[1,2]},{"a":null},3,null,"s",[4]]`, `"text"`, `5`, `{"a":false,"b":true,"n":2,"s":"a","num_s":"nan","arr":[{"a":false},{"a":0},{"a":""},{"a":[]}],"nums":[2,2,1],"strs":["a","a"],"mix":[0,"",[],{},false],"obj":{"a":{"a":{"a":1}}},"one":{"k":[]},"empty":[],"nul":null,"nest":[[null],[null,[null]]]}`,
